@@ -58,6 +58,28 @@ def mutate(rng, src):
     return src[:i] + rng.choice(["\u00e9", "\u20ac", "\U0001F600", "\u0000", "\u2028", "\ufeff", "\\"]) + src[i:]
 
 
+def attribute_cases():
+    """Every attribute name (the three the compiler knows, an unknown one) x every argument-list form (none, empty, one, two, a
+    non-identifier, unclosed) x every declaration it can precede (class, method, top-level function, statement), alone and in pairs."""
+    names = ["constructor", "derive", "static", "frobnicate"]
+    forms = ["", "()", "(a)", "(a, b)", "(1)", "(\"s\")", "(a", "(,)", "(a,)"]
+    targets = [("class", "%s class X {}"), ("class-with-base", "class B0 {} %s class X { fn m(self) { return 1; } }"),
+               ("method", "class X { %s fn m(self) { return 1; } }"), ("function", "%s fn f() { return 1; }"),
+               ("statement", "%s var v = 1;"), ("eof", "%s")]
+    out = []
+    for tn, t in targets:
+        for n in names:
+            for f in forms:
+                out.append(("attr:%s:%s%s" % (tn, n, f), t % ("#[%s%s]" % (n, f)) + "\nprint(1);\n"))
+        for n1 in names:
+            for n2 in names:
+                for f1, f2 in (("", "(a)"), ("(a)", ""), ("", ""), ("(a)", "(b)")):
+                    out.append(("attr2:%s:%s%s,%s%s" % (tn, n1, f1, n2, f2), t % ("#[%s%s, %s%s]" % (n1, f1, n2, f2)) + "\nprint(1);\n"))
+    for extra in ("#[]", "#[", "#", "#[a b]", "#[a]#[b] class X {}", "#[derive(B0)] #[constructor(new)] class X {}", "# [ derive ( B0 ) ] class X {}"):
+        out.append(("attr:odd:" + extra, extra + "\n"))
+    return out
+
+
 def nesting(depth, kind):
     if kind == "paren":
         return "var x = " + "(" * depth + "1" + ")" * depth + ";\n"
@@ -106,6 +128,7 @@ def correspondence(ctx, model_ok=True):
     for kind in ("paren", "block", "vec", "fn", "interp", "unary", "if", "binop"):
         for depth in ((1, 7, 8, 9, 50, 200, 255, 256, 257, 1000) if ctx.thorough else (8, 9, 200, 256, 257)):
             cases.append(("nest:%s:%d" % (kind, depth), nesting(depth, kind)))
+    cases += attribute_cases()
     lines = [vlib.case_line("c%d" % i, ["C:" + vlib.hx(src)], bytecode=1) for i, (_, src) in enumerate(cases)]
     res = vlib.run_real(ctx.runner, lines, timeout_per_batch=300, batch=400)
     ok_count = err_count = 0
